@@ -298,7 +298,7 @@ class ExpsGen:
             return "reset dungeon_result"
         if c == "advlog":
             return f"adventure_log = {self.int_like(sc)}"
-        return f"dungeon_mode({self.int_like(sc)}) = {r.choice(['DMODE_OPEN', 'DMODE_CLOSED', 'DMODE_REQUEST', 'OPEN_AND_REQUEST', '1', '7'])}"
+        return f"dungeon_mode({self.int_like(sc)}) = {r.choice(['DMODE_OPEN', 'DMODE_CLOSED', 'DMODE_REQUEST', 'OPEN_AND_REQUEST', '1', '0', '2', '3'])}"
 
     def simple_stmt(self, sc: _Scope, for_with: bool = False) -> str:
         """A simple statement without trailing ';' that neither is a label nor alters control flow."""
